@@ -32,6 +32,19 @@ func Obs(point string, args ...any) {
 	}
 }
 
+// FaultHandler may make a cooperative fault point fail.
+var FaultHandler func(point string) error
+
+// Fault marks a place where an operation on an external resource (a database
+// transaction, ...) may legitimately fail: under simulation the harness
+// decides whether this call returns an error.
+func Fault(point string) error {
+	if h := FaultHandler; h != nil {
+		return h(point)
+	}
+	return nil
+}
+
 // Statfs lets the simulator override the result of a statfs(2) call.
 func Statfs(stat *syscall.Statfs_t) {
 	if h := StatfsHandler; h != nil {
